@@ -682,6 +682,40 @@ func run(r *harness.Run) {
 		"!" + b43, "!" + b43 + "A", "!" + b43[:42], "!" + b43[:42] + "+", "!" + b43[:42] + "/", "!" + b43[:42] + "=", "!" + b43[:42] + ":", "!" + b43 + ":a", "!:", "!a:", "!:b", "!a:b c", "!a:[::1", "!", "!a", "!a:b", "!" + x(300) + ":a", "!a:b:c:d", "!a:b:80",
 		"$a:b", "$" + b43, "$", "$:", "",
 	}
+	// IPv6 literals are longer than any enumerated string: a generated family over every shape (full, "::" at the front / in
+	// the middle / at the end, IPv4-suffixed, malformed: 9 groups, 7 groups, two "::", 5-digit group, 7 groups + IPv4) x
+	// group widths 1-4 x IPv4 suffixes of 7-15 characters, so that every length from 2 to 46 occurs; alone, with a port,
+	// and as the domain of a user and a room ID
+	{
+		grp := func(w, i int) string { return strings.Repeat(string("123456789abcdefABCDEF"[i%21]), w) }
+		groups := func(n, w int) string {
+			var g []string
+			for i := 0; i < n; i++ {
+				g = append(g, grp(w, i))
+			}
+			return strings.Join(g, ":")
+		}
+		var lits []string
+		v4s := []string{"1.2.3.4", "10.20.30.4", "10.20.30.40", "123.123.123.12", "123.123.123.123", "255.255.255.255", "256.1.1.1", "1.2.3"}
+		for w := 1; w <= 5; w++ {
+			for n := 1; n <= 9; n++ {
+				lits = append(lits, groups(n, w))
+				if n <= 8 {
+					lits = append(lits, "::"+groups(n, w), groups(n, w)+"::")
+				}
+				for k := 1; k < n && n <= 8; k += 2 {
+					lits = append(lits, groups(k, w)+"::"+groups(n-k, w))
+				}
+			}
+			for _, v4 := range v4s {
+				lits = append(lits, groups(6, w)+":"+v4, groups(7, w)+":"+v4, groups(5, w)+":"+v4, "::"+v4, "::ffff:"+v4, groups(2, w)+"::"+groups(2, w)+":"+v4, groups(5, w)+"::"+v4, "::"+groups(5, w)+":"+v4)
+			}
+		}
+		lits = append(lits, "1::2::3", ":::", "::", ":", "1:2:3:4:5:6:7:8:", ":1:2:3:4:5:6:7:8", "g::1", "1::%eth0", "::1%25lo")
+		for _, l := range lits {
+			tail = append(tail, "["+l+"]", "["+l+"]:8448", l, "@u:["+l+"]", "!r:["+l+"]:1")
+		}
+	}
 	// 43-character (domainless) room IDs and event IDs cannot be reached by short-string enumeration: every single-byte
 	// substitution, insertion (all 256 byte values) and deletion around a valid one, and every pair of insertions from
 	// a menu of bytes that lenient decoders skip
